@@ -9,7 +9,8 @@
 (* The harness (harness/props/C20.py) executes every printed point on      *)
 (* QutipOperator / QutipState / the default observables.                   *)
 (*                                                                         *)
-(* Modes (constant Mode):                                                  *)
+(* One TLC state per lattice point (plus one root and one state per bucket  *)
+(* of points, see Buckets).  Modes (constant Mode):                                                  *)
 (*   "rep"  operator representation -> matrix, accept / reject             *)
 (*   "alg"  A + B, g A, A @ B on pairs of operators                        *)
 (*   "act"  A applied to kets and density matrices, expectation values     *)
@@ -19,10 +20,10 @@
 EXTENDS QuditAlgebra, TLC, Json
 
 CONSTANTS Mode,      \* "rep" | "alg" | "act" | "obs"
-          DN,        \* set of <<d, n, sel1, sel2, lean>>: qudit dimension, number of qudits, ids of the
-                     \* qudit operators used by the first / second term of "rep" operators (sel2 = {}:
-                     \* single-term operators only), lean = TRUE: reduced catalogues (large systems)
-          OrdSel,    \* subset of {"id", "rev", "rot"}
+          DN,        \* set of <<d, n, sel1, sel2, lean, ords>>: qudit dimension, number of qudits, ids of
+                     \* the qudit operators used by the first / second term of "rep" operators (sel2 = {}:
+                     \* single-term operators only), lean = TRUE: reduced catalogues (large systems),
+                     \* ords = eigenstate orders, subset of {"id", "rev", "rot"}
           MaxLaw,    \* laws that need matrix products are checked for Size <= MaxLaw
           MaxRep,    \* laws of the representation are checked for Size <= MaxRep
           MaxProd    \* matrix products are printed for Size <= MaxProd
@@ -48,9 +49,9 @@ OrdOf(d, kind) ==
   CASE kind = "id" -> [i \in 1..d |-> i]
     [] kind = "rev" -> [i \in 1..d |-> d + 1 - i]
     [] kind = "rot" -> [i \in 1..d |-> (i % d) + 1]
-Ords(d) == {OrdOf(d, k) : k \in OrdSel}
+Ords(dn) == {OrdOf(dn[1], k) : k \in dn[6]}
 Ctx(dn, o) == [d |-> dn[1], n |-> dn[2], ord |-> o, lean |-> dn[5]]
-Ctxs == UNION {{Ctx(dn, o) : o \in Ords(dn[1])} : dn \in DN}
+Ctxs == UNION {{Ctx(dn, o) : o \in Ords(dn)} : dn \in DN}
 All(c) == 0..(c.n - 1)
 
 (* a TensorOp from an assignment qudit -> operator id (0 = none): qudits sharing an operator
@@ -65,11 +66,11 @@ TensorOps(c, ids) == {TFrom(a, c.n, 1) : a \in [All(c) -> (ids \cap QIds(c.d)) \
 (* ---------------- mode "rep" ---------------- *)
 Coef1 == {G1, <<0, 1>>}
 Coef2 == {<<-2, 0>>, <<1, 1>>}
-RepValid(c, Sel1, Sel2) ==
-  LET T1 == TensorOps(c, Sel1)
-      T2 == TensorOps(c, Sel2)
-      one == {<< <<g, t>> >> : g \in Coef1, t \in T1}
-      two == IF Sel2 = {} THEN {} ELSE {<< <<g1, t1>>, <<g2, t2>> >> : g1 \in {G1}, t1 \in T1, g2 \in Coef2, t2 \in T2}
+(* points of one bucket: first term = the bucket's TensorOp t1; second term over the ids Sel2 *)
+RepValid(c, t1, Sel2) ==
+  LET T2 == TensorOps(c, Sel2)
+      one == {<< <<g, t1>> >> : g \in Coef1}
+      two == IF Sel2 = {} THEN {} ELSE {<< <<G1, t1>>, <<g2, t2>> >> : g2 \in Coef2, t2 \in T2}
   IN {[m |-> "rep", c |-> c, f |-> f, bad |-> "none"] : f \in one \cup two}
 RepSpecial(c) ==
   LET n == c.n
@@ -88,8 +89,6 @@ RepSpecial(c) ==
       [m |-> "rep", c |-> c, f |-> << <<Z0, <<X0>> >>, <<G1, <<NL>> >> >>, bad |-> "none"],     \* zero coeff
       [m |-> "rep", c |-> c, f |-> << <<G1, <<X0>> >>, <<<<-1, 0>>, <<X0>> >> >>, bad |-> "none"] \* cancels
      }
-RepPts == UNION {UNION {RepValid(Ctx(dn, o), dn[3], dn[4]) \cup RepSpecial(Ctx(dn, o)) : o \in Ords(dn[1])} : dn \in DN}
-
 (* ---------------- catalogue of operators for "alg", "act", "obs" ---------------- *)
 OpSeq(c) ==
   LET n == c.n
@@ -115,7 +114,7 @@ HamCat(c) ==
       h2 == << <<<<3, 0>>, << <<QCat[4], All(c)>> >> >>, <<G1, << <<QCat[3], {n - 1}>> >> >> >>
       h3 == xs \o ns \o << <<<<5, 0>>, << <<QCat[1], {0, n - 1}>> >> >> >>
       h4 == << <<G1, << <<QCat[8], {0}>> >> >>, <<<<2, 0>>, << <<Proj(c.d), All(c)>> >> >> >>
-  IN IF c.lean THEN (IF n >= 2 THEN {h3} ELSE {h1})
+  IN IF c.lean THEN (IF Size(c) > 27 THEN {h2} ELSE IF n >= 2 THEN {h3} ELSE {h1})
      ELSE {h1, h2} \cup (IF n >= 2 THEN {h3} ELSE {}) \cup (IF c.d >= 3 THEN {h4} ELSE {})
 
 (* ---------------- catalogue of states ---------------- *)
@@ -161,14 +160,30 @@ StateCat(c) ==
 Targets(c) == IF c.lean THEN <<K1(c), K6(c)>> ELSE <<K1(c), K3(c), K4(c), K6(c)>>
 Ones(c) == IF c.lean THEN {1} ELSE 1..c.d
 
-AlgPts == UNION {{[m |-> "alg", c |-> c, A |-> A, B |-> B, g |-> g] : A \in OpCat(c), B \in OpCat(c), g \in Scalars(c)} : c \in Ctxs}
-ActPts == UNION {{[m |-> "act", c |-> c, A |-> A, st |-> st] : A \in OpCat(c), st \in StateCat(c)} : c \in Ctxs}
-ObsPts == UNION {{[m |-> "obs", c |-> c, st |-> st, H |-> H, one |-> one] :
-                    st \in StateCat(c), H \in HamCat(c), one \in Ones(c)} : c \in Ctxs}
+(* The state graph has three levels so that TLC's workers share the load (initial states and the
+   successors of one state are computed by a single thread): root -> buckets -> points.  Laws
+   and Emit are evaluated on the points by the worker that expands the bucket. *)
+Bucket(k, c, x, y) == [m |-> "bucket", k |-> k, c |-> c, x |-> x, y |-> y]
+Buckets ==
+  CASE Mode = "rep" ->
+         UNION {UNION {{Bucket("rep", Ctx(dn, o), t1, dn[4]) : t1 \in TensorOps(Ctx(dn, o), dn[3])}
+                       \cup {Bucket("repS", Ctx(dn, o), <<>>, {})} : o \in Ords(dn)} : dn \in DN}
+    [] Mode = "alg" -> UNION {{Bucket("alg", c, A, B) : A \in OpCat(c), B \in OpCat(c)} : c \in Ctxs}
+    [] Mode = "act" -> UNION {{Bucket("act", c, A, 0) : A \in OpCat(c)} : c \in Ctxs}
+    [] Mode = "obs" -> UNION {{Bucket("obs", c, H, one) : H \in HamCat(c), one \in Ones(c)} : c \in Ctxs}
+PointsOf(b) ==
+  CASE b.k = "rep" -> RepValid(b.c, b.x, b.y)
+    [] b.k = "repS" -> RepSpecial(b.c)
+    [] b.k = "alg" -> {[m |-> "alg", c |-> b.c, A |-> b.x, B |-> b.y, g |-> g] : g \in Scalars(b.c)}
+    [] b.k = "act" -> {[m |-> "act", c |-> b.c, A |-> b.x, st |-> st] : st \in StateCat(b.c)}
+    [] b.k = "obs" -> {[m |-> "obs", c |-> b.c, st |-> st, H |-> b.x, one |-> b.y] : st \in StateCat(b.c)}
 
-Init == pt \in (CASE Mode = "rep" -> RepPts [] Mode = "alg" -> AlgPts [] Mode = "act" -> ActPts [] Mode = "obs" -> ObsPts)
-Next == UNCHANGED pt
+Init == pt = [m |-> "root"]
+Next ==
+  \/ pt.m = "root" /\ pt' \in Buckets
+  \/ pt.m = "bucket" /\ pt' \in PointsOf(pt)
 Spec == Init /\ [][Next]_pt
+IsPoint == pt.m \notin {"root", "bucket"}
 
 (* ======================= laws of the reference ======================= *)
 (* position of an index under the identity order, given its digits are positions under c.ord *)
@@ -221,10 +236,12 @@ ObsLaws ==
     IN /\ Hermitian(c, H) /\ Hermitian(c, R) /\ den > 0
        /\ E[2] = 0
        /\ (m2 * den) - (E[1] * E[1]) >= 0                                     \* variance >= 0
-       /\ \A i \in All(c) : OccNum(c, R, pt.one, i) = TrProd(c, R, OpMat(c, NumberOp(c, pt.one, {i})))[1]
+       /\ Size(c) <= MaxLaw =>              \* n_i = |one><one| on qudit i, n_i n_j on {i, j}
+            /\ \A i \in All(c) : OccNum(c, R, pt.one, i) = TrProd(c, R, OpMat(c, NumberOp(c, pt.one, {i})))[1]
+            /\ \A i, j \in All(c) :
+                 CorrNum(c, R, pt.one, i, j) = TrProd(c, R, OpMat(c, NumberOp(c, pt.one, {i, j})))[1]
        /\ \A i, j \in All(c) :
             /\ CorrNum(c, R, pt.one, i, j) = CorrNum(c, R, pt.one, j, i)
-            /\ CorrNum(c, R, pt.one, i, j) = TrProd(c, R, OpMat(c, NumberOp(c, pt.one, {i, j})))[1]
             /\ CorrNum(c, R, pt.one, i, i) = OccNum(c, R, pt.one, i)
        /\ ISumTo([b \in 0..(Pow(2, c.n) - 1) |-> BitNum(c, R, bt, b)], Pow(2, c.n) - 1) = den
        /\ \A i \in All(c) :
@@ -282,5 +299,5 @@ EmitRec ==
              ox |-> ops,
              ex |-> [k \in 1..Len(ops) |-> TrProd(c, R, OpMat(c, ops[k]))],
              bits |-> {<<b, BitNum(c, R, bt, b)>> : b \in {x \in 0..(Pow(2, c.n) - 1) : BitNum(c, R, bt, x) > 0}}]
-Emit == PrintT("PT|" \o ToJson(EmitRec))
+Emit == IsPoint => PrintT("PT|" \o ToJson(EmitRec))
 =============================================================================
